@@ -628,6 +628,9 @@ pub fn domain_discard(s: &Scan) -> Option<String> {
     if !feature_on("item_first_block") && has_item_first_block(s) {
         return Some("known-domain: list item starts with a code block, quote, table or rule".into());
     }
+    if !feature_on("item_first_list_nested") && has_nested_item_first_list(s) {
+        return Some("known-domain: list item starts with a list whose first item starts with a list".into());
+    }
     None
 }
 
@@ -639,6 +642,28 @@ pub fn has_item_first_list(s: &Scan) -> bool {
             if let Some(first) = b.children.iter().find(|c| !matches!(c.kind, BKind::Html)) {
                 if matches!(first.kind, BKind::List { .. }) {
                     found = true;
+                }
+            }
+        }
+    });
+    found
+}
+
+/// Scan-level predicate for the nested form of KF-ITEM-FIRST-LIST: an item whose first block is a
+/// list whose first item again starts with a list (`- * * a`). Blocks that follow inside such
+/// items are not reachable from the note's root and are lost on output.
+pub fn has_nested_item_first_list(s: &Scan) -> bool {
+    fn first_list(item: &SBlock) -> Option<&SBlock> {
+        item.children.iter().find(|c| !matches!(c.kind, BKind::Html)).filter(|c| matches!(c.kind, BKind::List { .. }))
+    }
+    let mut found = false;
+    walk(&s.blocks, &mut |b, _| {
+        if matches!(b.kind, BKind::Item) {
+            if let Some(l1) = first_list(b) {
+                if let Some(i1) = l1.children.iter().find(|c| matches!(c.kind, BKind::Item)) {
+                    if first_list(i1).is_some() {
+                        found = true;
+                    }
                 }
             }
         }
